@@ -2607,7 +2607,9 @@ class Machine:
                           'update_kw', 'setdefault', 'ior', 'ctor_map',
                           'ctor_pairs', 'ctor_kw', 'fromkeys', 'update_meta',
                           'update_obj', 'ior_obj', 'ctor_obj',
-                          'update_map_kw', 'ctor_map_kw'])
+                          'update_map_kw', 'ctor_map_kw', 'union_assign'])
+        if entry == 'union_assign' and (d is None or S.kind != 'region'):
+            entry = 'ctor_map'
         if d is None and not entry.startswith(('ctor', 'fromkeys')):
             entry = rng.pick(['ctor_map', 'ctor_pairs', 'ctor_kw',
                               'fromkeys'])
@@ -2683,6 +2685,29 @@ class Machine:
             else:
                 fn = lambda: Cls(arg)  # noqa
             desc = f'{entry}({type(arg).__name__} {[k for k, _ in items]})'
+        elif entry == 'union_assign':
+            # a | b of a plain dict and a Meta object (either way round),
+            # assigned to the region: whatever class the union has, the
+            # region must not end up with a key outside the vocabulary
+            valid_items = [it for it in items
+                           if not (invalid and it[0] is badk)]
+            cut = rng.randint(0, len(valid_items))
+            plain = dict(valid_items[:cut])
+            try:
+                mobj = Cls(dict(valid_items[cut:]))
+            except ALLOWED_EXC:
+                mobj, plain = Cls(), dict(valid_items)
+            if invalid:
+                plain[badk] = 1
+            side = rng.pick(['ror', 'or'])
+            args_given = [plain, mobj]
+            robj = S.obj
+
+            def fn():
+                u = (plain | mobj) if side == 'ror' else (mobj | plain)
+                setattr(robj, which, u)
+            desc = (f'= {sorted(map(str, plain))} | {cls}' if side == 'ror'
+                    else f'= {cls} | {sorted(map(str, plain))}')
         elif entry == 'update_pairs':
             form = rng.pick(['list', 'tuple', 'iter', 'gen', 'zip',
                              'userdict', 'mappingproxy'])
@@ -2769,6 +2794,8 @@ class Machine:
                     'A3-readback', f'{what}: setdefault on '
                     f'{"an existing" if had else "a new"} key returned '
                     f'{res!r} and left {now!r}; expected {want!r}', cls=cls)
+        if out == 'ok' and entry == 'union_assign':
+            d = getattr(S.obj, which)
         if out == 'ok' and entry not in ('setdefault',):
             use = [[k0, v0]] if entry == 'setitem' else items
             for k, v in use:
@@ -3078,8 +3105,8 @@ class Machine:
             args = [b[0], b[1], c[0], c[1]]
             value = 'valid'
             if invalid:
-                k = rng.pick(['float', 'inverted', 'str', 'none', 'nan',
-                              'float_integral', 'arr0d_int', 'arr0d_int32',
+                k = rng.pick(['float', 'inverted', 'inverted_unsigned',
+                              'str', 'none', 'nan', 'float_integral', 'arr0d_int', 'arr0d_int32',
                               'arr0d_float', 'arr1d', 'list', 'index_obj',
                               'inf', 'complex', 'fraction', 'bytes'])
                 j = rng.randrange(4)
@@ -3108,6 +3135,14 @@ class Machine:
                 elif k == 'inverted':
                     pair = rng.pick([0, 2])
                     args[pair], args[pair + 1] = args[pair + 1] + 1, args[pair]
+                elif k == 'inverted_unsigned':
+                    # limits taken from an unsigned index array: their
+                    # difference wraps around instead of going negative
+                    ut = rng.pick([np.uint8, np.uint16, np.uint32, np.uint64])
+                    args = [ut(abs(x)) for x in args]
+                    pair = rng.pick([0, 2])
+                    lo, hi = sorted(int(x) for x in args[pair:pair + 2])
+                    args[pair], args[pair + 1] = ut(hi + 1), ut(lo)
                 elif k == 'str':
                     args[j] = '3'
                 elif k == 'none':
@@ -3117,6 +3152,11 @@ class Machine:
                 value = k
             elif rng.chance(0.3):
                 args = [np.int64(x) for x in args]
+            elif rng.chance(0.2):
+                ut = rng.pick([np.uint8, np.uint16, np.uint64])
+                args = [ut(v) for v in sorted(abs(x) for x in args[:2])] + \
+                    [ut(v) for v in sorted(abs(x) for x in args[2:])]
+                value = 'valid-unsigned'
             what = f'RegionBoundingBox({value})'
             out, res = self.c17_outcome(lambda: RegionBoundingBox(*args),
                                         invalid, what, 'RegionBoundingBox',
